@@ -45,6 +45,11 @@ CLAIMED = {
     text="Unbounded proof over all handler-duration patterns (the clock may advance arbitrarily at every call), all start frames incl. 2715647, all periods >= 1 and link sets, any number of iterations (inductive invariant).",
     note="Trusted: virtual-clock contracts of time.monotonic_ns and Event.wait (float dt*1e-9 taken as dt ns), threading.Thread/Event semantics, sched_rr_prio None; real scheduler jitter is outside the property.",
     design="9/C09"),
+ "C15": dict(
+    technique="contract-based deductive verification: PyVC VCs from the live data_dump.py over a ghost file (content array, length, position) and a well-formed-capture view with a symbolic boundary array and a symbolic cut; loop invariants for _seek2msg, parse_all and append_all; callers use callee contracts (gen_msg/parse_msg from C01/C13); z3 incl. quantified invariants",
+    text="Unbounded proof over the number of records, every index, every (skip, count) incl. None, and every truncation offset (the cut is a symbolic integer); 'equal in every field' composes with C01's round-trip lemma.",
+    note="Trusted: PyVC builtin models and the binary-file model (read/seek/append-write); monotonicity of record boundaries used as a lemma; messages are valid (append refuses others).",
+    design="9/C15"),
 }
 NOT_YET = "check not built yet in this session (design in DESIGN.md section 9); will be claimed when its obligations are discharged"
 
